@@ -304,7 +304,7 @@ var c15Degeneracies = []string{
 	"key-type-vs-material", "ed25519-short", "ed25519-nonhex", "key-garbage-pem", "rootca-garbage", "intermediate-garbage", "empty-run", "name-glob", "name-separator", "name-dotdot",
 	"duplicate-step", "steps-null", "inspect-null", "keys-null", "expected-null", "huge-readme", "verifier-key-short", "verifier-key-mismatch", "step-and-inspection-same-name",
 	"link-garbage", "link-empty-object", "link-null-members", "link-bad-cert", "link-pubkey-as-cert", "link-unauthorised-sublayout", "link-authorised-sublayout-no-dir",
-	"link-dir", "link-dangling-symlink", "link-fifo", "link-symlink-to-fifo", "link-symlink-to-dir", "link-wrong-shape", "link-materials-null", "link-name-mismatch", "link-sig-garbage", "link-many-sigs", "constraint-odd", "cert-link-odd-constraints", "cert-link-odd-constraints",
+	"linkdir-is-workdir-fifo", "linkdir-is-workdir-symlink-to-fifo", "link-dir", "link-dangling-symlink", "link-fifo", "link-symlink-to-fifo", "link-symlink-to-dir", "link-wrong-shape", "link-materials-null", "link-name-mismatch", "link-sig-garbage", "link-many-sigs", "constraint-odd", "cert-link-odd-constraints", "cert-link-odd-constraints",
 	"name-glob-shorter-match", "name-many-stars", "key-public-is-private", "key-private-is-public", "verifier-key-public-is-private",
 }
 
@@ -475,6 +475,18 @@ func c15Apply(w hx.World, kinds []string) hx.World {
 					links[i].Meta = hx.MMeta{Layout: &sub}
 					break
 				}
+			}
+		case "linkdir-is-workdir-fifo", "linkdir-is-workdir-symlink-to-fifo":
+			// the links lie next to the final product (link directory = verification directory, as in the
+			// in-toto demo) and somebody dropped a named pipe there: inspections record that directory
+			w.LinksInProduct = true
+			sp := "fifo"
+			if k == "linkdir-is-workdir-symlink-to-fifo" {
+				sp = "symlink-to-fifo"
+			}
+			links = append(links, hx.WMetaFile{Name: "build-notes.txt", Special: sp})
+			if len(lay.Inspect) == 0 {
+				lay.Inspect = append(lay.Inspect, hx.MInspection{Type: "inspection", Name: "look", Run: []string{"@EMIT@", "x:0"}, ExpMat: [][]string{{"ALLOW", "*"}}, ExpProd: [][]string{{"ALLOW", "*"}}})
 			}
 		case "link-dir":
 			links = append(links, hx.WMetaFile{Name: hostileName("55555555"), Special: "dir"})
